@@ -2705,7 +2705,7 @@ positions_to_tree_indexes(const tsk_treeseq_t *ts, const double *positions,
     // This is tricky. If there are 0 positions, we calloc a size of 1
     // we must calloc, because memset will have no effect when called with size 0
     *tree_indexes = tsk_calloc(num_positions, sizeof(*tree_indexes));
-    if (tree_indexes == NULL) {
+    if (*tree_indexes == NULL) {
         ret = tsk_trace_error(TSK_ERR_NO_MEMORY);
         goto out;
     }
